@@ -14,7 +14,7 @@ from .. import build, sp
 ID = "C07"
 META = {
     "technique": "runtime monitoring: icontract snapshot/ensure (input fingerprint unchanged + disjoint mutable-identity graphs) on transform of every shipped middleware class, fingerprint monitor around write_string; parsed libraries x option sets x well-typed stacks <= 3",
-    "level_text": "Libraries obtained by parsing generated documents (incl. syntax-failed, duplicate-key/field and invalid-name error blocks) are run through stacks of up to 3 of the 16 shipped middleware classes, every one constructed with allow_inplace_modification=False under its option sets; after every transform the input must fingerprint-equal its state before and share no mutable object with the result, and no well-typed stack may raise. write_string (default stack, also with an explicitly empty prepend list) is run twice on each library with fingerprints of library and format compared; a repeated element of a stack is the same middleware object (its second input carries what it left behind); whole copy-mode stacks are checked end to end, and a tamper-and-repeat monitor damages a result and repeats the call to expose state carried between calls.",
+    "level_text": "Libraries obtained by parsing generated documents (incl. syntax-failed, duplicate-key/field and invalid-name error blocks) are run through stacks of up to 3 of the 16 shipped middleware classes, every one constructed with allow_inplace_modification=False under its option sets; after every transform the input must fingerprint-equal its state before and share no mutable object with the result, and no well-typed stack may raise. write_string (default stack, also with an explicitly empty prepend list) is run twice on each library with fingerprints of library and format compared; a repeated element of a stack is the same middleware object (its second input carries what it left behind); whole copy-mode stacks are checked end to end, and a tamper-and-repeat monitor damages a result and repeats the call to expose state carried between calls. Libraries of 255 ... 8193 blocks (thorough 32769; both sides of every power of two and of 5000) go through six copy-mode middlewares and the writer; a quarter of the random libraries are edited (remove, re-add, add, replace) before use.",
     "level_note": "stacks that are ill-typed for the name/month fields (e.g. SplitNameParts before SeparateCoAuthors) are skipped and counted",
 }
 RULE = ("case = (document, pre-parse mode, stack of 1-3 middleware specs, format); non-trivial = the library holds >= 1 entry with >= 1 field and the "
